@@ -24,11 +24,27 @@ package congestion
 //
 // The pacer is additionally driven directly (newPacer) with adversarial bandwidth functions
 // and clock values around the overflow guards.
+//
+// Replaying by hand: put the "trace" object of a violation record ({"cfg":…,"ops":[…]}) into a
+// file and run TestVerifC20Debug with C20_DEBUG=<file>; it prints the window after every op.
+//
+// Signatures.  The last component of a signature is an input class that only labels the report
+// (it never decides whether something is a violation):
+//
+//	cwnd-below-2-packets|after-mtu-increase   the floor is violated since SetMaxDatagramSize
+//	shrink-on-ack|cubic-epoch-older-than-25s  Cubic, event time + minRTT − epoch start > 25 s
+//	shrink-on-ack|cubic-min-rtt-decreased     Cubic, minRTT fell since the previous CA ACK
+//	shrink-on-ack|cubic-after-mtu-rebase      Cubic, minimal window re-based during the epoch
+//
+// These four classes fire on the tree as of the build of this monitor (see the build report);
+// the unlabelled signatures (cwnd-below-2-packets, shrink-on-ack, …) do not.
 
 import (
+	"encoding/json"
 	"fmt"
 	"math"
 	"math/rand/v2"
+	"os"
 	"sort"
 	"strings"
 	"testing"
@@ -134,13 +150,17 @@ type c20Run struct {
 	opIdx      int
 	panicked   bool
 	// labelling only (input class of a shrink-on-ack report): mirror of the Cubic epoch start
-	cubicEpoch monotime.Time
-	epochLbl   protocol.PacketNumber
-	noPace     bool // skip the pacing clause (shrinking another signature)
-	work       int
+	cubicEpoch   monotime.Time
+	rebaseTaint  bool          // the minimal window was re-based by an MTU increase during the current Cubic epoch
+	minRTTAtGrow time.Duration // MinRTT at the previous congestion-avoidance ACK of the Cubic epoch
+	epochLbl     protocol.PacketNumber
+	noPace       bool // skip the pacing clause (shrinking another signature)
+	work         int
 }
 
 const c20MaxPkts = protocol.MaxCongestionWindowPackets
+
+const c20MaxRTTSample = 10 * time.Second
 
 func c20NewRun(cfg c20Cfg) *c20Run {
 	r := &c20Run{cfg: cfg, clk: &c20Clock{now: monotime.Time(cfg.Start)}, seen: map[string]bool{}}
@@ -183,7 +203,7 @@ func (r *c20Run) sig(class string, more ...string) string {
 func (r *c20Run) bounds(where string) {
 	w := r.s.GetCongestionWindow()
 	if w < 2*r.mds {
-		if r.mtuPending {
+		if r.mtuPending || (r.cfg.Cubic && r.rebaseTaint) {
 			r.fail(r.sig("cwnd-below-2-packets", "after-mtu-increase"), "after %s: cwnd %d < 2 x %d (datagram size in force after SetMaxDatagramSize)", where, w, r.mds)
 		} else {
 			r.fail(r.sig("cwnd-below-2-packets"), "after %s: cwnd %d < 2 x %d", where, w, r.mds)
@@ -249,19 +269,25 @@ func (r *c20Run) call(kind int, pn protocol.PacketNumber, prior protocol.ByteCou
 		if !r.s.InRecovery() {
 			if !limited {
 				r.cubicEpoch = 0
-			} else if before < c20MaxPkts*r.mds && !ssBefore && r.cubicEpoch.IsZero() {
-				r.cubicEpoch = r.clk.now
+				defer func() { r.rebaseTaint = false }()
+			} else if before < c20MaxPkts*r.mds && !ssBefore {
+				if r.cubicEpoch.IsZero() {
+					r.cubicEpoch = r.clk.now
+				}
+				defer func(d time.Duration) { r.minRTTAtGrow = d }(r.rtt.MinRTT())
 			}
 		}
 	case c20Loss:
 		if pn > r.epochLbl {
 			r.epochLbl = r.lsent
 			r.cubicEpoch = 0
+			r.rebaseTaint = false
 		}
 	case c20RTO:
 		r.epochLbl = protocol.InvalidPacketNumber
 		if rtoRetx {
 			r.cubicEpoch = 0
+			r.rebaseTaint = false
 		}
 	}
 	if after < before {
@@ -277,8 +303,12 @@ func (r *c20Run) call(kind int, pn protocol.PacketNumber, prior protocol.ByteCou
 				r.fail(r.sig("shrink-without-loss", name), "OnRetransmissionTimeout(false): cwnd %d -> %d", before, after)
 			}
 		case c20Acked:
-			if age := r.clk.now.Sub(epochBefore); r.cfg.Cubic && !epochBefore.IsZero() && age > 25*time.Second {
-				r.fail(r.sig("shrink-on-ack", "cubic-epoch-older-than-25s"), "OnPacketAcked(pn=%d, prior=%d, t=epoch+%s): cwnd %d -> %d", pn, prior, age, before, after)
+			if age := r.clk.now.Add(r.rtt.MinRTT()).Sub(epochBefore); r.cfg.Cubic && !epochBefore.IsZero() && age > 25*time.Second {
+				r.fail(r.sig("shrink-on-ack", "cubic-epoch-older-than-25s"), "OnPacketAcked(pn=%d, prior=%d, t+minRTT=epoch+%s): cwnd %d -> %d", pn, prior, age, before, after)
+			} else if r.cfg.Cubic && r.rebaseTaint {
+				r.fail(r.sig("shrink-on-ack", "cubic-after-mtu-rebase"), "OnPacketAcked(pn=%d, prior=%d): cwnd %d -> %d after SetMaxDatagramSize had re-based the minimal window", pn, prior, before, after)
+			} else if r.cfg.Cubic && !epochBefore.IsZero() && r.rtt.MinRTT() < r.minRTTAtGrow {
+				r.fail(r.sig("shrink-on-ack", "cubic-min-rtt-decreased"), "OnPacketAcked(pn=%d, prior=%d): cwnd %d -> %d, minRTT %s -> %s since the previous window-limited ACK", pn, prior, before, after, r.minRTTAtGrow, r.rtt.MinRTT())
 			} else {
 				r.fail(r.sig("shrink-on-ack"), "OnPacketAcked(pn=%d, prior=%d): cwnd %d -> %d", pn, prior, before, after)
 			}
@@ -294,13 +324,15 @@ func (r *c20Run) call(kind int, pn protocol.PacketNumber, prior protocol.ByteCou
 			}
 		case c20MTU:
 			r.st.mtuRebase++
+			r.rebaseTaint = true
 			allowed := max(2*r.mds, protocol.ByteCount(float64(before)*float64(r.mds)/float64(oldMDS))+1)
 			if after > allowed {
 				r.fail(r.sig("growth-without-ack", name), "SetMaxDatagramSize(%d -> %d): cwnd %d -> %d", oldMDS, r.mds, before, after)
 			}
-		case c20Loss:
+		case c20Loss, c20RTO:
+			// raising a window that is below the floor to the floor is part of the bounds clause
 			if after > 2*r.mds {
-				r.fail(r.sig("growth-without-ack", name), "OnCongestionEvent(pn=%d): cwnd %d -> %d", pn, before, after)
+				r.fail(r.sig("growth-without-ack", name), "%s (pn=%d): cwnd %d -> %d", name, pn, before, after)
 			}
 			r.st.floorHits++
 		default:
@@ -454,7 +486,9 @@ func (r *c20Run) opAck(op c20Op) {
 	prior := r.infl
 	// RTT sample, as in ReceivedAck: the largest acknowledged is newly acknowledged
 	if op.A&8 == 0 && (r.lackT.IsZero() || !largest.sent.Before(r.lackT)) {
-		r.rtt.UpdateRTT(r.clk.now.Sub(largest.sent), time.Duration(op.E)*time.Microsecond)
+		// RTT samples are an event type of their own in the property's quantifier (1 µs … 10 s);
+		// a packet acknowledged later than that still yields a sample of at most 10 s
+		r.rtt.UpdateRTT(min(r.clk.now.Sub(largest.sent), c20MaxRTTSample), time.Duration(op.E)*time.Microsecond)
 		r.lackT = largest.sent
 		r.st.rttSamples++
 	}
@@ -581,6 +615,8 @@ func (r *c20Run) checkPacing() {
 	}
 }
 
+var c20PairFallbacks int64 // traces that needed the explicit pair evaluation
+
 func c20Burst(bw float64, mds protocol.ByteCount) float64 {
 	return math.Max(10*float64(mds), 1.25*bw*(protocol.MinPacingDelay+protocol.TimerGranularity).Seconds())
 }
@@ -591,10 +627,36 @@ func c20Burst(bw float64, mds protocol.ByteCount) float64 {
 // at most maxSize per entry, so with a margin M the next maxSize-steps cannot violate; skips never
 // cross a change of bandwidth or datagram size.  A start i that directly follows an authorised
 // send at the same instant with the same estimate is dominated by that predecessor.
+//
+// Before that, an O(n) sufficient condition is tried: a leaky bucket E_j = max(0, E_{j-1} −
+// 1.25·bw_j·Δt_j) + bytes_j equals max_i [Σ bytes(i..j) − Σ_k 1.25·bw_k·Δt_k], and Σ_k bw_k·Δt_k ≤
+// B_max(i..j)·(t_j−t_i); so E_j ≤ burst(bw_j) + one packet for every j implies the bound for every
+// pair.  Only traces that fail this stricter test go through the pair evaluation.
 func c20PairCheck(p []c20Pace, pairs *int64) string {
 	n := len(p)
 	if n == 0 {
 		return ""
+	}
+	{
+		e := 0.0
+		ok := true
+		for j := range p {
+			if j > 0 {
+				e -= 1.25 * p[j].bw * (float64(p[j].t.Sub(p[j-1].t)) / 1e9) * (1 + 1e-9)
+				if e < 0 {
+					e = 0
+				}
+			}
+			e += float64(p[j].bytes)
+			if e > c20Burst(p[j].bw, p[j].mds)+float64(p[j].mds)+1 {
+				ok = false
+				break
+			}
+		}
+		if ok {
+			*pairs += int64(n) * int64(n+1) / 2
+			return ""
+		}
 	}
 	ts := make([]float64, n)
 	cum := make([]int64, n+1)
@@ -648,7 +710,9 @@ func c20PairCheck(p []c20Pace, pairs *int64) string {
 			j += step
 		}
 	}
-	*pairs += evaluated
+	*pairs += int64(n) * int64(n+1) / 2
+	c20PairFallbacks++
+	_ = evaluated
 	return ""
 }
 
@@ -669,13 +733,13 @@ func (r *c20Run) fingerprint() string {
 	if s.acked+s.lost == 0 {
 		return ""
 	}
-	init := r.cfg.InitPkts
-	return fmt.Sprintf("%s|i%d|m%d|s%d.%d.%d|a%d.%d|l%d.%d|c%d|g%d|mt%d.%d|al%d.%d.%d|pw%d.%d.%d|ss%d|r%d|e%d|w%d-%d|x%d.%d",
-		r.cfg.mode(), c20Bucket(int(init)), r.cfg.MDS/100, c20Bucket(s.sent), min(s.probes, 2), min(s.ackOnly, 2),
-		c20Bucket(s.ackEvents), c20Bucket(s.acked), c20Bucket(s.lost), c20Bucket(s.lossEvents), min(s.cuts, 6), c20Bucket(s.grows),
-		min(s.mtu, 3), min(s.mtuRebase, 2), c20Bucket(s.appLtdAcks), c20Bucket(s.limitedAcks), c20Bucket(s.recoveryAcks),
-		c20Bucket(s.paceWaits), min(s.paceBlocked, 2), min(s.cwndBlocked, 3), min(s.ssExit, 2), min(s.rto, 2), min(s.ecn, 2),
-		c20Bucket(int(s.minCwndPk)), c20Bucket(int(s.maxCwndPk)), min(s.atMax, 1), min(s.atMin, 1))
+	b2 := func(n int) int { return (c20Bucket(n) + 2) / 3 }
+	return fmt.Sprintf("%s|i%d|s%d.%d.%d|a%d|l%d|c%d|g%d|mt%d.%d|al%d.%d.%d|pw%d.%d.%d|ss%d|r%d|e%d|w%d-%d|x%d.%d",
+		r.cfg.mode(), b2(int(r.cfg.InitPkts)), b2(s.sent), min(s.probes, 1), min(s.ackOnly, 1),
+		b2(s.acked), b2(s.lost), min(s.cuts, 4), b2(s.grows),
+		min(s.mtu, 2), min(s.mtuRebase, 1), min(s.appLtdAcks, 1), b2(s.limitedAcks), min(s.recoveryAcks, 1),
+		min(s.paceWaits, 1), min(s.paceBlocked, 1), min(s.cwndBlocked, 1), min(s.ssExit, 1), min(s.rto, 1), min(s.ecn, 1),
+		b2(int(s.minCwndPk)), b2(int(s.maxCwndPk)), min(s.atMax, 1), min(s.atMin, 1))
 }
 
 // ---------------------------------------------------------------------------------------
@@ -691,14 +755,14 @@ var c20Sizes = []int64{1200, 1252, 1280, 1300, 1350, 1400, 1452}
 func c20Gen(rng *rand.Rand) (c20Cfg, []c20Op) {
 	cfg := c20Cfg{Cubic: rng.IntN(2) == 0, ZeroRTT: rng.IntN(8) == 0}
 	cfg.MDS = c20Sizes[rng.IntN(len(c20Sizes))]
-	switch rng.IntN(16) {
-	case 0:
+	switch rng.IntN(32) {
+	case 0, 1:
 		cfg.InitPkts = 2
-	case 1:
+	case 2, 3:
 		cfg.InitPkts = int64(2 + rng.IntN(8))
-	case 2:
+	case 4, 5:
 		cfg.InitPkts = int64(50 + rng.IntN(200))
-	case 3:
+	case 6:
 		cfg.InitPkts = int64(c20MaxPkts - rng.IntN(40))
 	}
 	switch rng.IntN(6) {
@@ -930,7 +994,7 @@ func c20AddStats(l *evlog.Log, s *c20Stats, mode string) {
 	l.Count("sends_blocked_by_window", int64(s.cwndBlocked))
 	l.Count("observations_window_at_max", int64(s.atMax))
 	l.Count("observations_window_at_min", int64(s.atMin))
-	l.Count("pacer_interval_pairs_checked", s.pairs)
+	l.Count("pacer_interval_pairs_covered", s.pairs)
 }
 
 type c20Reporter struct {
@@ -957,8 +1021,10 @@ func TestVerifC20Sender(t *testing.T) {
 	l := evlog.Open("C20")
 	defer l.Close()
 	const perBatch = 250
-	batches := l.Pick(400, 40000)
+	batches := l.Pick(400, 20000)
 	rp := &c20Reporter{l: l, reported: map[string]int{}}
+	c20PairFallbacks = 0
+	defer func() { l.Count("pacer_traces_needing_pair_evaluation", c20PairFallbacks) }()
 	for b := 0; b < batches; b++ {
 		if !l.Mine(b) {
 			continue
@@ -1011,12 +1077,12 @@ func TestVerifC20Scripted(t *testing.T) {
 					cfg := c20Cfg{Cubic: cubic, MDS: mds, Start: int64(time.Hour)}
 					var ops []c20Op
 					for k := 0; k < 10; k++ {
-						ops = append(ops, c20Op{K: "S", A: 3}, c20Op{K: "T", A: int64(50 * time.Millisecond)}, c20Op{K: "A", A: 1, B: 1, C: 1})
+						ops = append(ops, c20Op{K: "S", A: 3}, c20Op{K: "T", A: int64(50 * time.Millisecond)}, c20Op{K: "A", A: 1, B: 1, C: 1}, c20Op{K: "A", A: 0, B: 100})
 					}
 					for k := 0; k < grow; k++ {
 						ops = append(ops, c20Op{K: "S", A: 4}, c20Op{K: "T", A: int64(50 * time.Millisecond)}, c20Op{K: "A", A: 0, B: 4})
 					}
-					ops = append(ops, c20Op{K: "S", A: 3}, c20Op{K: "T", A: int64(50 * time.Millisecond)}, c20Op{K: "A", A: 1, B: 1, C: 1})
+					ops = append(ops, c20Op{K: "S", A: 3}, c20Op{K: "T", A: int64(50 * time.Millisecond)}, c20Op{K: "A", A: 1, B: 1, C: 1}, c20Op{K: "A", A: 0, B: 100})
 					ops = append(ops, c20Op{K: "M", A: to})
 					ops = append(ops, c20Op{K: "S", A: 3}, c20Op{K: "T", A: int64(50 * time.Millisecond)}, c20Op{K: "A", A: 0, B: 3})
 					r := c20NewRun(cfg)
@@ -1279,7 +1345,7 @@ func TestVerifC20Pacer(t *testing.T) {
 			l.Count("pacer_overflow_guard_reached", int64(r.guardHit))
 			l.Count("pacer_budget_at_burst_cap", int64(r.capHit))
 			l.Count("pacer_sends_refused", int64(r.refused))
-			l.Count("pacer_direct_interval_pairs_checked", r.pairs)
+			l.Count("pacer_direct_interval_pairs_covered", r.pairs)
 			for _, v := range r.viols {
 				reported[v.sig]++
 				l.Count("violations_"+v.sig, 1)
@@ -1313,5 +1379,36 @@ func TestVerifC20Pacer(t *testing.T) {
 			}
 		}
 		c.End()
+	}
+}
+
+// TestVerifC20Debug replays one history by hand: C20_DEBUG=<file with {"cfg":…,"ops":[…]}> (the
+// "trace" object of a violation record) and prints the window after every operation.
+func TestVerifC20Debug(t *testing.T) {
+	fn := os.Getenv("C20_DEBUG")
+	if fn == "" {
+		t.Skip("C20_DEBUG not set")
+	}
+	b, err := os.ReadFile(fn)
+	if err != nil {
+		t.Fatal(err)
+	}
+	var in struct {
+		Cfg c20Cfg  `json:"cfg"`
+		Ops []c20Op `json:"ops"`
+	}
+	if err := json.Unmarshal(b, &in); err != nil {
+		t.Fatal(err)
+	}
+	r := c20NewRun(in.Cfg)
+	fmt.Printf("init: cwnd %d mds %d\n", r.s.GetCongestionWindow(), r.mds)
+	for i, op := range in.Ops {
+		r.exec([]c20Op{op})
+		r.opIdx = i
+		fmt.Printf("%3d %s(%d,%d,%d,%d,%d): t=+%s cwnd %d inflight %d (%d pkts) mds %d ss=%v rec=%v srtt=%s minrtt=%s bw=%.0fB/s\n", i, op.K, op.A, op.B, op.C, op.D, op.E,
+			r.clk.now.Sub(monotime.Time(in.Cfg.Start)), r.s.GetCongestionWindow(), r.infl, len(r.out), r.mds, r.s.InSlowStart(), r.s.InRecovery(), r.rtt.SmoothedRTT(), r.rtt.MinRTT(), r.bwBytes())
+	}
+	for _, v := range r.viols {
+		fmt.Printf("VIOLATION %s: %s\n", v.sig, v.detail)
 	}
 }
